@@ -213,6 +213,13 @@ class Models:
     # -------------------------------------------------------------------------------------------
     def call(self, interp, fn, args, kwargs, node, frame=None):
         if isinstance(fn, ExtRef):
+            # an abstract stand-in handed in by a rule (e.g. C20's 3-D field) answers library calls it takes part in itself
+            for a in list(args) + [y for x in args if isinstance(x, (list, tuple)) for y in x]:
+                hk = getattr(a, 'abs_ext_call', None)
+                if hk is not None:
+                    r = hk(interp, fn.path, args, kwargs, node)
+                    if r is not NotImplemented:
+                        return r
             h = self.ext_call.get(fn.path)
             if h is None and fn.path.startswith('numpy.ma.') and ('numpy.' + fn.path[len('numpy.ma.'):]) in self.ext_call and fn.path.rsplit('.', 1)[1] in MA_ELEMENTWISE:
                 h = self.ext_call['numpy.' + fn.path[len('numpy.ma.'):]]      # np.ma.sin etc.: the same element-wise function, masks are carried by the elements
@@ -306,10 +313,17 @@ class Models:
 
     def binop(self, interp, op, a, b, node):
         from . import models_np
+        for x in (a, b):
+            hk = getattr(x, 'abs_binop', None)
+            if hk is not None:
+                return hk(interp, op, a, b, node)
         return models_np.binop_model(self, interp, op, a, b, node)
 
     def unaryop(self, interp, op, v, node):
         from . import models_np
+        hk = getattr(v, 'abs_unaryop', None)
+        if hk is not None:
+            return hk(interp, op, node)
         return models_np.unaryop_model(self, interp, op, v, node)
 
     def compare(self, interp, op, a, b, node):
